@@ -84,6 +84,10 @@ type TW struct {
 	// two chains are allowed (two client pairs / connections / transfer channels).
 	Topo  [][2]int
 	Links []int // links transfers may use (nil = all)
+	// PrefixIDs (needs a second link on chain 1) bumps chain 1's counters with dummy clients and dangling channel
+	// ends so that its identifiers of the two links are string prefixes of each other: 07-tendermint-1 / channel-1
+	// for the first link, 07-tendermint-10 / channel-10 for the second.
+	PrefixIDs bool
 
 	// alphabet
 	SendFrom   []int    // chains that may originate transfers (nil = all)
@@ -152,7 +156,7 @@ func mustAcc(s string) sdk.AccAddress {
 }
 
 // candidate path identifiers (verified against the real ones in Init)
-var pathIDs = []string{"channel-0", "channel-1", "channel-2", "channel-3", "07-tendermint-0", "07-tendermint-1", "07-tendermint-2", "07-tendermint-3"}
+var pathIDs = []string{"channel-0", "channel-1", "channel-2", "channel-3", "channel-10", "07-tendermint-0", "07-tendermint-1", "07-tendermint-2", "07-tendermint-3", "07-tendermint-10"}
 
 // tracked maps raw address bytes to a readable name for every account the state key and the
 // oracles cover: the users of all chains, the relayer, the transfer module account, one blocked
@@ -298,15 +302,41 @@ func (s *TW) Init(wk *ksim.Worker) *ksim.World {
 	// link's far end is at the same time the near end's identifier of the other link).
 	_, dr := w.CreateClient(1, 0)
 	ksim.MustOK("dummy client on chain 1", dr)
+	dangling := func(chain int, conn string, n int) {
+		for k := 0; k < n; k++ {
+			ksim.MustOK("dangling channel end", w.Tx(chain, channeltypes.NewMsgChannelOpenInit(Port, transfertypes.V1, channeltypes.UNORDERED, []string{conn}, Port, ksim.Signer)))
+		}
+	}
 	for i, t := range topo {
+		if i == 1 && s.PrefixIDs {
+			// chain 1 so far: clients 07-tendermint-0 (dummy), -1 (first link); channels channel-0 (dangling), channel-1 (first link)
+			for k := 0; k < 8; k++ {
+				_, r := w.CreateClient(1, 0)
+				ksim.MustOK("dummy client on chain 1", r)
+			}
+			dangling(1, links[0].L.ConnB, 8)
+		}
 		l := w.SetupClients(t[0], t[1])
 		w.SetupConnection(l, 0)
 		if i == 0 {
-			ksim.MustOK("dangling channel end on chain 0", w.Tx(t[0], channeltypes.NewMsgChannelOpenInit(Port, transfertypes.V1, channeltypes.UNORDERED, []string{l.ConnA}, Port, ksim.Signer)))
+			if s.PrefixIDs {
+				dangling(t[0], l.ConnA, 2) // chain 0: channel-2 / channel-3 for the two links
+				dangling(t[1], l.ConnB, 1) // chain 1: channel-1 for the first link
+			} else {
+				dangling(t[0], l.ConnA, 1)
+			}
 		}
 		ch := w.SetupChannel(l, Port, Port, transfertypes.V1, channeltypes.UNORDERED)
 		w.RegisterCounterparties(l)
 		links[i] = linkInfo{L: l, Ch: ch}
+	}
+	if s.PrefixIDs {
+		if len(topo) < 2 || topo[0] != [2]int{0, 1} || topo[1] != [2]int{0, 1} {
+			panic("tokenworld: PrefixIDs needs two links between chains 0 and 1")
+		}
+		if links[0].Ch.ChanB != "channel-1" || links[1].Ch.ChanB != "channel-10" || links[0].L.ClientB != "07-tendermint-1" || links[1].L.ClientB != "07-tendermint-10" {
+			panic(fmt.Sprintf("tokenworld: prefix-related identifiers not reached: %+v %+v / %+v %+v", *links[0].L, *links[0].Ch, *links[1].L, *links[1].Ch))
+		}
 	}
 	initMu.Lock()
 	if s.links == nil {
